@@ -27,6 +27,16 @@ func treeOf(s string) int {
 }
 
 // execCopy: `copy S V D W` / `copyb S V D W N` on the real code.
+// effBatch: what a batch-size argument means to CopyBatched: `currentBatchSize >= batchSize` holds after every entry for a
+// negative size, so a negative size commits every entry on its own - like size 1.
+func effBatch(tok string) int {
+	if n := atoi(tok); n >= 0 {
+		return n
+	}
+
+	return 1
+}
+
 func execCopy(w [2]*world, f []string) string {
 	src, ok1 := w[treeOf(f[1])].views[atoi(f[2])]
 	dst, ok2 := w[treeOf(f[3])].views[atoi(f[4])]
@@ -75,8 +85,8 @@ func expectCopy(o [2]*oracle, f []string) (string, int) {
 		case f[0] == "copy" && len(keys) > 0:
 			write(keys[:1])
 		case f[0] == "copy":
-		case atoi(f[5]) != 0 && atoi(f[5]) <= len(keys):
-			write(keys[:atoi(f[5])])
+		case effBatch(f[5]) != 0 && effBatch(f[5]) <= len(keys):
+			write(keys[:effBatch(f[5])])
 		default:
 			write(keys) // one batch, committed at the end
 		}
@@ -160,7 +170,11 @@ func genPairCase(rng *hx.Rng) []string {
 			if rng.Chance(2, 5) {
 				ops = append(ops, fmt.Sprintf("copy %d %d %d %d", s+1, v, d+1, w))
 			} else {
-				ops = append(ops, fmt.Sprintf("copyb %d %d %d %d %d", s+1, v, d+1, w, rng.Intn(6)))
+				n := rng.Intn(6)
+				if rng.Chance(1, 12) { // an unusual option value: a negative batch size (every entry is its own batch)
+					n = -rng.Range(1, 3)
+				}
+				ops = append(ops, fmt.Sprintf("copyb %d %d %d %d %d", s+1, v, d+1, w, n))
 			}
 			ops = append(ops, "iter 0 - fwd 0", "2 iter 0 - bwd 0")
 			if armed && rng.Chance(3, 4) {
